@@ -214,7 +214,73 @@ def _one(c):
 replay_balanced = common.per_case(_one, 'balanced')
 
 
+# ----------------------------------------------------------------------------------------------
+# column family (ColumnTendency.tla): unbalanced states with exact non-zero tendencies
+# ----------------------------------------------------------------------------------------------
+
+def _column_group(cases):
+  """All (d, tp) cases of one (level set, reference profile, kappa): one equation object, one
+  vmapped evaluation of explicit_terms + implicit_terms; the (m=0, l=1) coefficient of every
+  tendency must be the exported column value and every other coefficient must vanish."""
+  import math
+  np, jax, jnp = spectral.np_jax()
+  from dinosaur import coordinate_systems, primitive_equations as pe, scales, sigma_coordinates
+  from harness.c04 import _form
+  out = []
+  c0 = cases[0]
+  b = np.array(c0['b'], np.float64) / c0['den']
+  K = len(b) - 1
+  kappa = fl(c0['kappa'])
+  grid = dataflow.make_grid(c0.get('grid') or dict(M=3))
+  coords = coordinate_systems.CoordinateSystem(grid, sigma_coordinates.SigmaCoordinates(b))
+  specs = pe.PrimitiveEquationsSpecs(radius=1.0, angular_velocity=1.0, gravity_acceleration=1.0,
+                                     ideal_gas_constant=1.5, water_vapor_gas_constant=2.0,
+                                     water_vapor_isobaric_heat_capacity=3.0, kappa=kappa, scale=scales.DEFAULT_SCALE)
+  centers = (b[1:] + b[:-1]) / 2
+  alpha = [math.log(centers[j + 1] / centers[j]) / 2 for j in range(K - 1)] + [-math.log(centers[-1])]
+  eq = pe.PrimitiveEquations(np.array(c0['tref'], np.float64), jnp.zeros(grid.modal_shape), coords, specs)
+  i00, i01 = (0, 0), (0, 1)      # (m, l) = (0, 0) and (0, 1): row 0 is m = 0 in both layouts
+  n = len(cases)
+  zeros = np.zeros((n, K) + grid.modal_shape)
+  div, tp = zeros.copy(), zeros.copy()
+  div[(slice(None), slice(None)) + i01] = np.array([c['d'] for c in cases], np.float64)
+  tp[(slice(None), slice(None)) + i00] = np.array([c['tp'] for c in cases], np.float64) * dataflow.SQRT4PI
+  lnps = np.zeros((n, 1) + grid.modal_shape)
+  lnps[(slice(None), slice(None)) + i00] = 0.25 * dataflow.SQRT4PI
+  state = pe.State(jnp.asarray(zeros), jnp.asarray(div), jnp.asarray(tp), jnp.asarray(lnps), {'q': jnp.asarray(tp)})
+  total = jax.vmap(lambda s: jax.tree_util.tree_map(lambda x, y: x + y, eq.explicit_terms(s), eq.implicit_terms(s)))(state)
+  got = {'temperature': np.asarray(total.temperature_variation), 'tracer': np.asarray(total.tracers['q']),
+         'lnps': np.asarray(total.log_surface_pressure)}
+  for i, c in enumerate(cases):
+    exp = {'temperature': np.array([_form(f, alpha) for f in c['temperature']]),
+           'tracer': np.array([fl(v) for v in c['tracer']]), 'lnps': np.array([fl(c['lnps'])])}
+    for name in ('temperature', 'tracer', 'lnps'):
+      y = got[name][i]
+      e = np.zeros_like(y)
+      e[(slice(None),) + i01] = exp[name]
+      scale = 1.0 + np.max(np.abs(exp[name])) + np.max(np.abs(c['d'])) * (1 + np.max(np.abs(c['tp'])) + np.max(np.abs(c['tref'])))
+      err = np.max(np.abs(y - e))
+      if not err <= 1e-12 * scale:
+        j = np.unravel_index(np.argmax(np.abs(y - e)), y.shape)
+        out.append({'case': c, 'sig': f'steady:column:{name}',
+                    'detail': f'b={c["b"]}/{c["den"]} tref={c["tref"]} d={c["d"]} tp={c["tp"]}: total {name} tendency, level {int(j[0])}, '
+                              f'modal index {tuple(int(v) for v in j[1:])}: code {y[j]!r}, continuous equations with the documented '
+                              f'vertical differences {e[j]!r}'})
+  return out
+
+
+def replay_column(groups):
+  out = []
+  for g in groups:
+    out.extend(common.per_case(lambda cs: _column_group(cs), 'steady:column')([g]))
+  return out
+
+
 def replay(ctx, kind, cases):
+  if kind == 'column':
+    for m in replay_column([cases]):
+      ctx.record(kind, m)
+    return
   for m in replay_balanced(cases):
     ctx.record(kind, m)
 
@@ -246,11 +312,33 @@ def run(ctx):
     ctx.record('balanced', m)
   for fam in ('solid', 'rest', 'jet'):
     ctx.sample(next(c for c in items if c['cfg']['family'] == fam))
+  # column family: unbalanced states whose exact (non-zero) tendencies the machine derives
+  rc = ctx.tlc('ColumnTendency', 'ColumnTendency_quick.cfg' if q else 'ColumnTendency_thorough.cfg')
+  ctx.require_actions(rc, ['BuildH', 'BuildHs', 'BuildG'])
+  groups = {}
+  for c in rc.cases:
+    groups.setdefault(json.dumps([c['b'], c['tref'], c['kappa']]), []).append(c)
+  groups = [sorted(g, key=lambda c: (c['d'], c['tp'])) for _, g in sorted(groups.items())]
+  if len(groups) < 50 or not any(any(c['tp']) and len(c['b']) > 2 for g in groups for c in g):
+    raise common.MachineryError('vacuous export of ColumnTendency')
+  for i, g in enumerate(groups):
+    if i % 3 == 1:
+      for c in g:
+        c['grid'] = dict(M=3, impl='fast', mult=2)
+  for m in common.parallel_map('c05', 'replay_column', groups, tag='col', outdir=os.path.join(ctx.out, 'par')):
+    ctx.record('column', m)
+  ctx.replayed += len(rc.cases)
+  ctx.comparisons += 3 * len(rc.cases)
+  for c in rc.cases:
+    ctx.distinct.add(json.dumps(['column', c['b'], c['tref'], c['kappa'], c['d'], c['tp']]))
+  ctx.sample({'column': next(c for c in rc.cases if len(c['b']) == 4 and any(c['tp']))})
+  ctx.notes['column_family_cases'] = len(rc.cases)
   ctx.assumptions += [
       'the first clause in full generality (pointwise agreement with the continuous equations on all alias-free inputs) is decided only on '
-      'the zonal-polynomial subspace and on the resting family: products of non-zonal harmonics (Gaunt coefficients) are outside exact TLC '
+      'the zonal-polynomial subspace, the resting family and the column family (one harmonic of divergence over horizontally uniform '
+      'temperature / tracer / surface pressure: temperature, tracer and surface-pressure tendencies): products of non-zonal harmonics (Gaunt coefficients) are outside exact TLC '
       'arithmetic; steady_state_jw (transcendental profile) and the library-built shallow-water states are not used as oracles',
       'zero means < 1e-10 of the largest individual term of the same equation']
   return ctx.finish(rule='one case per balanced configuration of Balanced.tla (solid-body rotation: radius x rotation rate x surface-pressure '
                          'curvature x per-level winds x humidity x split; rest: radius x total wavenumber x split, 3 labels; jets: 1-3 layers x '
-                         'polynomial profiles x densities) x grids')
+                         'polynomial profiles x densities) x grids; column family: one case per (level set, reference profile, divergence column, temperature column)')
